@@ -191,6 +191,12 @@ func (c *Ctx) mustDominate(rule string, f *ssa.Function, resIdx int, checks []re
 		pass, ifs := passingEdges(f, rc)
 		key := fmt.Sprintf("%s requires %s%s", fnName(f), rc.name, ctxDesc)
 		if len(ifs) == 0 {
+			// the check was moved into an unexported helper whose verdict f hands on unchanged (return
+			// verifyCellSignature(...)): every success of f is then a success of the helper, decided there
+			if how, ok := c.delegatedCheck(f, resIdx, rc, 0); ok {
+				c.ok(rule, key, f.Pos(), how)
+				continue
+			}
 			c.bad(rule, key, f.Pos(), fmt.Sprintf("no branch in %s tests the result of %s: the validation was removed or its result is ignored", fnName(f), rc.name))
 			continue
 		}
@@ -274,16 +280,26 @@ func (c *Ctx) boundsAtSuccess(rule string, f *ssa.Function, resIdx int, what str
 // constBounds collects constant lower/upper bounds for values matching pred from the branch
 // facts holding at block b.
 func constBounds(f *ssa.Function, b *ssa.BasicBlock, pred srcPred) (lo, hi int64, hasLo, hasHi bool) {
-	for _, ft := range factsAt(f, b) {
+	fts := factsAt(f, b)
+	args := predicateArgs(fts)
+	// an operand that is a parameter of a predicate helper stands for the argument it was called with
+	res := func(v ssa.Value) ssa.Value {
+		v = stripConv(v)
+		if a, ok := args[v]; ok {
+			return stripConv(a)
+		}
+		return v
+	}
+	for _, ft := range fts {
 		bo, ok := ft.Cond.(*ssa.BinOp)
 		if !ok {
 			continue
 		}
 		var op token.Token
 		var k int64
-		if kk, ok := constInt(bo.Y); ok && pred(stripConv(bo.X)) {
+		if kk, ok := constInt(bo.Y); ok && pred(res(bo.X)) {
 			op, k = bo.Op, kk
-		} else if kk, ok := constInt(bo.X); ok && pred(stripConv(bo.Y)) {
+		} else if kk, ok := constInt(bo.X); ok && pred(res(bo.Y)) {
 			k = kk
 			switch bo.Op { // k op v  ==  v op' k
 			case token.LSS:
@@ -460,7 +476,7 @@ func (c *Ctx) definitelyAssigned(rule string, f *ssa.Function, resIdx int, varNa
 	// the local whose value is returned as the first result on a success exit (varName only labels the report)
 	for _, sp := range successPoints(f, resIdx) {
 		derivesFrom(retVal(sp.Ret, 0), func(v ssa.Value) bool {
-			if a, ok := v.(*ssa.Alloc); ok && al == nil {
+			if a, ok := v.(*ssa.Alloc); ok && al == nil && a.Parent() == f {
 				al = a
 			}
 			return false
@@ -468,6 +484,30 @@ func (c *Ctx) definitelyAssigned(rule string, f *ssa.Function, resIdx int, varNa
 	}
 	key := fnName(f) + " result " + varName + " assigned on every success path"
 	if al == nil {
+		// the function hands the work (and its result) to an unexported helper: decide it there
+		var h *ssa.Function
+		for _, sp := range successPoints(f, resIdx) {
+			v := retVal(sp.Ret, 0)
+			if ex, ok := v.(*ssa.Extract); ok {
+				v = ex.Tuple
+			}
+			if cl, ok := v.(*ssa.Call); ok {
+				if g := plainHelper(cl.Call.StaticCallee()); g != nil && g != f {
+					h = g
+				}
+			}
+		}
+		if h != nil && c.assignDepth < 2 {
+			c.assignDepth++
+			before := len(c.Obls)
+			c.definitelyAssigned(rule, h, h.Signature.Results().Len()-1, varName)
+			c.assignDepth--
+			// report under the entry point's key
+			if len(c.Obls) > before {
+				c.Obls[len(c.Obls)-1].Key = rule + "|" + key
+			}
+			return
+		}
 		c.bad(rule, key, f.Pos(), "local variable "+varName+" not found (anchor moved?)")
 		return
 	}
@@ -511,4 +551,68 @@ func (c *Ctx) definitelyAssigned(rule string, f *ssa.Function, resIdx int, varNa
 	}
 	c.check(len(offenders) == 0 && len(assign) > 0, rule, key, al.Pos(), fmt.Sprintf("%d assigning block(s); no success return is reachable around them", len(assign)),
 		fmt.Sprintf("%s can return success with %s still holding its zero value (return at %s): e.g. a switch without a matching case and without default", fnName(f), varName, strings.Join(offenders, ", ")))
+}
+
+// delegatedCheck: every success exit of f (result resIdx) returns, unchanged, the result of the same
+// index... of a call to an unexported in-module helper in which every success exit lies behind a
+// passing edge of the check.
+func (c *Ctx) delegatedCheck(f *ssa.Function, resIdx int, rc requiredCheck, depth int) (string, bool) {
+	if depth > 1 {
+		return "", false
+	}
+	var helpers []*ssa.Function
+	idxIn := map[*ssa.Function]int{}
+	n := 0
+	for _, r := range returnsOf(f) {
+		if resIdx >= len(r.Results) {
+			continue
+		}
+		v := retVal(r, resIdx)
+		if isFailureValue(f, v, r.Block()) {
+			continue
+		}
+		n++
+		var cl *ssa.Call
+		hi := 0
+		switch x := v.(type) {
+		case *ssa.Call:
+			cl = x
+		case *ssa.Extract:
+			if t, ok := x.Tuple.(*ssa.Call); ok {
+				cl, hi = t, x.Index
+			}
+		}
+		if cl == nil {
+			return "", false
+		}
+		h := plainHelper(cl.Call.StaticCallee())
+		if h == nil {
+			return "", false
+		}
+		helpers = append(helpers, h)
+		idxIn[h] = hi
+	}
+	if n == 0 || len(helpers) == 0 {
+		return "", false
+	}
+	for _, h := range helpers {
+		pass, ifs := passingEdges(h, rc)
+		if len(ifs) == 0 {
+			if _, ok := c.delegatedCheck(h, idxIn[h], rc, depth+1); ok {
+				continue
+			}
+			return "", false
+		}
+		cut := map[edge]bool{}
+		for _, e := range pass {
+			cut[e] = true
+		}
+		reach := reachableWithout(h, cut)
+		for _, sp := range successPoints(h, idxIn[h]) {
+			if reach[sp.Block] {
+				return "", false
+			}
+		}
+	}
+	return fmt.Sprintf("every success exit of %s returns the verdict of %s, all of whose success exits lie behind the passing edge of %s", fnName(f), fnName(helpers[0]), rc.name), true
 }
